@@ -208,6 +208,11 @@ func c02(c *core.Ctx) {
 		}
 		c.EndRule()
 	}
+
+	// ---------------------------------------------------------------- R6 (shared)
+	// the status the client reports is the handler's: the library itself never cancels a call that is still in
+	// use (a cancelling finalizer on an object the blocked operation does not keep reachable — C04/R9)
+	c.Borrow("C04", map[string]string{"R9": "R6"}, c04)
 }
 
 // ---------------------------------------------------------------------------
